@@ -137,7 +137,20 @@ impl World {
         let mut grant_index = None;
         let region: Reg = match kind {
             #[cfg(not(feature = "xen"))]
-            Kind::OwnedAnon => GuestRegionMmap::from_range(base, size, None).map_err(|e| format!("{:?}", e))?,
+            Kind::OwnedAnon => {
+                if slot % 2 == 0 {
+                    GuestRegionMmap::from_range(base, size, None).map_err(|e| format!("{:?}", e))?
+                } else {
+                    // (every other anonymous region: the hint cleared, or set and cleared again,
+                    // on the finished region)
+                    let mut r = vm_memory::MmapRegion::new(size).map_err(|e| format!("{:?}", e))?;
+                    if slot % 4 == 3 {
+                        r.set_hugetlbfs(true);
+                    }
+                    r.set_hugetlbfs(false);
+                    GuestRegionMmap::new(r, base).map_err(|e| format!("{:?}", e))?
+                }
+            }
             #[cfg(not(feature = "xen"))]
             Kind::OwnedFile => {
                 let f = crate::layouts::tempfile().unwrap();
@@ -146,7 +159,7 @@ impl World {
                 // the construction route rotates with the slot: the convenience constructor, the
                 // builder with the hugetlbfs hint, and the hint set on the finished region (a
                 // hint does not change what was mapped, so not what has to be unmapped either)
-                match (slot + self.size_override.map_or(0, |s| s % 3)) % 3 {
+                match (slot + self.size_override.map_or(0, |s| s % 5)) % 5 {
                     0 => GuestRegionMmap::from_range(base, size, Some(fo)).map_err(|e| format!("{:?}", e))?,
                     1 => {
                         let r = vm_memory::mmap::MmapRegionBuilder::new(size)
@@ -158,9 +171,26 @@ impl World {
                             .map_err(|e| format!("{:?}", e))?;
                         GuestRegionMmap::new(r, base).map_err(|e| format!("{:?}", e))?
                     }
-                    _ => {
+                    2 => {
                         let mut r = vm_memory::MmapRegion::from_file(fo, size).map_err(|e| format!("{:?}", e))?;
                         r.set_hugetlbfs(true);
+                        GuestRegionMmap::new(r, base).map_err(|e| format!("{:?}", e))?
+                    }
+                    3 => {
+                        let mut r = vm_memory::MmapRegion::from_file(fo, size).map_err(|e| format!("{:?}", e))?;
+                        r.set_hugetlbfs(false);
+                        GuestRegionMmap::new(r, base).map_err(|e| format!("{:?}", e))?
+                    }
+                    _ => {
+                        let mut r = vm_memory::mmap::MmapRegionBuilder::new(size)
+                            .with_file_offset(fo)
+                            .with_mmap_prot(libc::PROT_READ | libc::PROT_WRITE)
+                            .with_mmap_flags(libc::MAP_SHARED | libc::MAP_NORESERVE)
+                            .with_hugetlbfs(false)
+                            .build()
+                            .map_err(|e| format!("{:?}", e))?;
+                        r.set_hugetlbfs(true);
+                        r.set_hugetlbfs(false);
                         GuestRegionMmap::new(r, base).map_err(|e| format!("{:?}", e))?
                     }
                 }
@@ -192,7 +222,12 @@ impl World {
                     b = b.with_file_offset(vm_memory::FileOffset::new(f, 0));
                 }
                 // SAFETY: p is a valid mapping of SIZE bytes that outlives the region
-                let r = unsafe { b.with_raw_mmap_pointer(p as *mut u8) }.build().map_err(|e| format!("{:?}", e))?;
+                let mut r = unsafe { b.with_raw_mmap_pointer(p as *mut u8) }.build().map_err(|e| format!("{:?}", e))?;
+                // (the hint set or cleared afterwards makes an external mapping no more the
+                // library's own than it was)
+                if slot % 3 != 0 {
+                    r.set_hugetlbfs(slot % 3 == 1);
+                }
                 GuestRegionMmap::new(r, base).map_err(|e| format!("{:?}", e))?
             }
             #[cfg(feature = "xen")]
@@ -1102,7 +1137,7 @@ fn builder_sweep(ctx: &Ctx, thorough: bool) {
 
 pub fn run(tier: Tier, replay: Option<String>) -> i32 {
     let ctx = crate::new_ctx("C12", tier, "model_checking", &replay);
-    ctx.set_rule("E1: BFS over all histories up to the depth bound of {create region (owned anonymous / owned file-backed - through from_range, the builder with the hugetlbfs hint, or with the hint set afterwards, rotating with the slot - / external raw / external raw file-backed; Xen build: UNIX, grant in advance, foreign on the emulated devices), build a map from any subset of region handles, insert, remove (yields a removed-region handle), clone map, wrap in GuestMemoryAtomic, snapshot, replace the published map, clone handle, drop ANY live handle (every other drop happens while a caught panic unwinds)}; state = owner graph (which handle keeps which region alive), each frontier state is rebuilt by replaying its history on the real objects with mmap/munmap (and the grant ioctls) recorded through link-time interposition. After every step: a region with an owner has not been passed to munmap and is readable; a region whose last owner went away was munmap'ed exactly once with exactly its mapped length (grant: plus exactly one matching unmap ioctl); external mappings are never unmapped; at the end of every history all remaining handles are dropped and the same invariant is checked. Address-space accounting: the whole mapping log is replayed after every step; every page the library mapped while creating a region is attributed to it, all pages of a region with an owner must still be mapped, and none of the pages attributed to a region without owners may remain. Size sweep: the life cycle {create, build, clone, atomic, snapshot, optional remove} followed by the drop orders of the five owners for owned regions of 1 byte .. 1 GiB (thorough: .. 4 GiB; page multiples and not, around the 2 MiB huge-page size, exact multiples of 1 GiB), same invariants. Replace histories: create two regions, build, remove, wrap, snapshot, replace the published map by the one without the second region, then drop its four other owners in all 24 orders while the replaceable memory stays alive. Failed creations (std build): anonymous and file-backed regions and a two-region map created through four routes with exactly one mmap call failing, or one query of the file length failing or reporting an empty file: nothing the library mapped on the way may remain. Builder sweep (std build): MmapRegionBuilder::build for 5 protections x 16 (thorough 25) flag words (private/shared, anonymous or not, NORESERVE, LOCKED, POPULATE, FIXED, HUGETLB, STACK, GROWSDOWN, ...) x 4 (6) sizes x {no file, file at offset 0, file at a page offset}: while a built region is alive exactly its pages are mapped, after its drop or after a refused build nothing remains; every mlock/madvise/mprotect call the library makes on the way (interposed too) is failed once.");
+    ctx.set_rule("E1: BFS over all histories up to the depth bound of {create region (owned anonymous / owned file-backed - through from_range, the builder with the hugetlbfs hint true or false, or with the hint set, cleared or toggled on the finished region, rotating with the slot; anonymous and external regions with the hint changed afterwards too - / external raw / external raw file-backed; Xen build: UNIX, grant in advance, foreign on the emulated devices), build a map from any subset of region handles, insert, remove (yields a removed-region handle), clone map, wrap in GuestMemoryAtomic, snapshot, replace the published map, clone handle, drop ANY live handle (every other drop happens while a caught panic unwinds)}; state = owner graph (which handle keeps which region alive), each frontier state is rebuilt by replaying its history on the real objects with mmap/munmap (and the grant ioctls) recorded through link-time interposition. After every step: a region with an owner has not been passed to munmap and is readable; a region whose last owner went away was munmap'ed exactly once with exactly its mapped length (grant: plus exactly one matching unmap ioctl); external mappings are never unmapped; at the end of every history all remaining handles are dropped and the same invariant is checked. Address-space accounting: the whole mapping log is replayed after every step; every page the library mapped while creating a region is attributed to it, all pages of a region with an owner must still be mapped, and none of the pages attributed to a region without owners may remain. Size sweep: the life cycle {create, build, clone, atomic, snapshot, optional remove} followed by the drop orders of the five owners for owned regions of 1 byte .. 1 GiB (thorough: .. 4 GiB; page multiples and not, around the 2 MiB huge-page size, exact multiples of 1 GiB), same invariants. Replace histories: create two regions, build, remove, wrap, snapshot, replace the published map by the one without the second region, then drop its four other owners in all 24 orders while the replaceable memory stays alive. Failed creations (std build): anonymous and file-backed regions and a two-region map created through four routes with exactly one mmap call failing, or one query of the file length failing or reporting an empty file: nothing the library mapped on the way may remain. Builder sweep (std build): MmapRegionBuilder::build for 5 protections x 16 (thorough 25) flag words (private/shared, anonymous or not, NORESERVE, LOCKED, POPULATE, FIXED, HUGETLB, STACK, GROWSDOWN, ...) x 4 (6) sizes x {no file, file at offset 0, file at a page offset}: while a built region is alive exactly its pages are mapped, after its drop or after a refused build nothing remains; every mlock/madvise/mprotect call the library makes on the way (interposed too) is failed once.");
     ctx.assume("the 'programs' half of the property (accessors cannot outlive their parent) is decided by the compile-fail grid in tools/cfail.py and rests on Rust's borrow checker");
     if ctx.replay_of.is_some() {
         println!("replay: deterministic search; re-running it");
